@@ -121,9 +121,9 @@ func checkRun(c runCase) (h.Info, error) {
 	go func() {
 		var r result
 		if c.Version == 1 {
-			r.nonce, r.err = pow1.New(c.Workers).Mine(ctx, c.Data, t1)
+			r.nonce, r.err = worker1(c.Workers).Mine(ctx, c.Data, t1)
 		} else {
-			r.nonce, r.err = pow2.New(c.Workers).Mine(ctx, c.Data, t2)
+			r.nonce, r.err = worker2(c.Workers).Mine(ctx, c.Data, t2)
 		}
 		done <- r
 	}()
@@ -190,6 +190,24 @@ func checkRun(c runCase) (h.Info, error) {
 }
 
 var subName = "runs"
+
+// Worker objects are reused from run to run (no state may survive a call, cancelled or not)
+var w1 = map[int]*pow1.Worker{}
+var w2 = map[int]*pow2.Worker{}
+
+func worker1(n int) *pow1.Worker {
+	if w1[n] == nil {
+		w1[n] = pow1.New(n)
+	}
+	return w1[n]
+}
+
+func worker2(n int) *pow2.Worker {
+	if w2[n] == nil {
+		w2[n] = pow2.New(n)
+	}
+	return w2[n]
+}
 
 func genRun(t *rapid.T) runCase {
 	c := runCase{
